@@ -1098,4 +1098,39 @@ theorem coverOK_iff (rev : Bool) (exts children : List (List Nat)) :
   · rintro ⟨h0, h⟩
     refine ⟨h0, fun i hi => ⟨fun j hj => (h i hi j).mp hj, fun j hj => (h i hi j).mpr hj⟩⟩
 
+theorem relOK_iff (f : List (List Nat) → Nat → List Nat) (exts rel : List (List Nat)) :
+    relOK f exts rel = true ↔
+      rel.length = exts.length ∧ ∀ i, i < exts.length → ∀ j, (j ∈ rel.getD i [] ↔ j ∈ f exts i) := by
+  simp only [relOK, Bool.and_eq_true, beq_iff_eq, List.all_eq_true, List.mem_range,
+    List.contains_eq_mem, decide_eq_true_eq]
+  constructor
+  · rintro ⟨h0, h⟩
+    refine ⟨h0, fun i hi j => ?_⟩
+    obtain ⟨h1, h2⟩ := h i hi
+    exact ⟨h1 j, h2 j⟩
+  · rintro ⟨h0, h⟩
+    refine ⟨h0, fun i hi => ⟨fun j hj => (h i hi j).mp hj, fun j hj => (h i hi j).mpr hj⟩⟩
+
+theorem mem_strictDown (exts : List (List Nat)) (i j : Nat) :
+    j ∈ strictDown exts i ↔ j < exts.length ∧ ssubset (exts.getD j []) (exts.getD i []) = true := by
+  simp [strictDown, List.mem_filter]
+
+theorem mem_strictUp (exts : List (List Nat)) (i j : Nat) :
+    j ∈ strictUp exts i ↔ j < exts.length ∧ ssubset (exts.getD i []) (exts.getD j []) = true := by
+  simp [strictUp, List.mem_filter]
+
+/-- the cheap oracle for monotone concepts (through the complemented table) is exact -/
+theorem mem_monoConceptsFast (t : Table) (hwf : t.WF) {A B : List Nat} :
+    (A, B) ∈ monoConceptsFast t ↔ isMonoConcept t A B = true := by
+  unfold monoConceptsFast
+  simp only [List.mem_map, Prod.mk.injEq]
+  constructor
+  · rintro ⟨⟨C, B'⟩, hp, rfl, rfl⟩
+    exact isMonoConcept_of_complement t hwf ((mem_allConcepts _).mp hp)
+  · intro h
+    refine ⟨(compl t.height A, B), (mem_allConcepts _).mpr (isConcept_complement_of_mono t hwf h), ?_, rfl⟩
+    have hA := ((isMonoConcept_iff t).mp h).1
+    rw [← hA]
+    exact extMonoAll_canon t B
+
 end Fca.Dual
